@@ -1003,8 +1003,10 @@ impl Gen {
   fn reopen_line(&mut self, mode: &str, cap: &str, magic: Option<u16>, freelist: Option<u8>, create: bool) -> String {
     let c = self.cfg.clone().expect("cfg");
     let flavour = if self.rng.chance(50) { "sync" } else { "unsync" };
+    // a read-only open must clear a truncate flag left in the caller's Options
+    let trunc = if (mode == "ro" || mode == "copy_ro") && self.rng.chance(30) { " trunc=1" } else { "" };
     self.emit(format!(
-      "reopen {mode} cap={cap} magic={} freelist={} create={} flavour={flavour} reserved={} minseg={}",
+      "reopen {mode} cap={cap} magic={} freelist={} create={} flavour={flavour} reserved={} minseg={}{trunc}",
       magic.unwrap_or(c.magic),
       FREELISTS[freelist.unwrap_or(c.freelist) as usize],
       create as u8,
